@@ -478,10 +478,9 @@ def _idset_copy(fb, R, rec, fns, T, data_f, size_f):
                     alloc = any(fn.nodes[x].get('k') == 'new' for x in fn.subtree(e['id']))
                     tested = None
                     for (c, s_, b_, o_) in U.guards(fn, e['id']):
-                        x = U.scn(fn, c)
-                        if x is not None and x.get('k') == 'call' and x.get('q') == 'std::unique_ptr::(conv)' and x.get('recv') is not None:
-                            if U.alias_root(fn, x['recv']) == lp['root']:
-                                tested = s_
+                        nt = U.nonnull_test(fn, c)
+                        if nt is not None and U.alias_root(fn, U.pointer_origin(fn, nt[0])) == lp['root']:
+                            tested = (s_ == nt[1])
                     if tested is None or tested != alloc:
                         ok = False
                         msg = 'allocated / empty slot is not chosen by the source pointer test'
@@ -1306,30 +1305,56 @@ def itemstash_rules(fb, R):
         for fn in fb.fns(helper_cls + '::moving_in_buffer'):
             key = fn.q
             old_p, new_p = (fn.params + [None, None])[:2]
-            asg = [n for n in fn.all_nodes() if n.get('k') == 'assign' and n.get('op') == '=']
+            asg = [n for n in fn.all_nodes() if n.get('k') == 'assign' and n.get('op') == '=' and (U.scn(fn, n['lhs']) or {}).get('op') == '[]']
             ok = hidx is not None and hpos is not None and old_p is not None and new_p is not None and len(asg) == 1
             if ok:
                 a = asg[0]
                 lhs = U.scn(fn, a['lhs'])
-                ok = lhs is not None and lhs.get('k') == 'call' and lhs.get('op') == '[]' and fn.is_this_member(lhs['recv'], hidx) \
-                    and fn.is_this_member(lhs['args'][0], hpos) and (U.scn(fn, a['rhs']) or {}).get('d') == new_p['d']
-                # reached only when index[pos] == old_offset
-                good = False
-                for (c, s, b, o) in U.guards(fn, a['id']):
-                    p = U.cmp_parts(fn, c)
-                    if p is None or p[0] not in ('==', '!='):
-                        continue
-                    op = p[0] if s else U.NEG[p[0]]
-                    for x, y in ((p[1], p[2]), (p[2], p[1])):
-                        xn, yn = U.scn(fn, x), U.scn(fn, y)
-                        if xn is not None and xn.get('k') == 'call' and xn.get('op') == '[]' and fn.is_this_member(xn['recv'], hidx) \
-                                and fn.is_this_member(xn['args'][0], hpos) and yn is not None and yn.get('d') == old_p['d'] and op == '==':
-                            good = True
-                ok = ok and good
-                incs = [n for n in fn.all_nodes() if n.get('k') == 'unop' and n.get('op') == '++' and fn.is_this_member(n['sub'], hpos)]
-                # between the test and the store the position is not moved; after the store it advances past the slot
-                ok = ok and any(fn.elem_dominates(a['id'], i['id']) for i in incs) \
-                    and U.must_pass_after(fn, a['id'], [i['id'] for i in incs if fn.elem_dominates(a['id'], i['id'])]) is None
+
+                def is_cursor(nid, cur):
+                    return fn.is_this_member(nid, hpos) if cur == ('member',) else ((U.scn(fn, nid) or {}).get('k') == 'var' and U.scn(fn, nid).get('d') == cur[1])
+                # the cursor: the position member itself, or a local copy of it that is only ever incremented
+                cx = U.scn(fn, lhs['args'][0]) if lhs.get('args') else None
+                cur = None
+                if cx is not None and fn.is_this_member(lhs['args'][0], hpos):
+                    cur = ('member',)
+                elif cx is not None and cx.get('k') == 'var' and cx.get('vk') == 'local':
+                    init = U.local_init(fn, cx['d'])
+                    writes = [n for n in fn.all_nodes() if (n.get('k') == 'assign' and (U.scn(fn, n['lhs']) or {}).get('d') == cx['d'])
+                              or (n.get('k') == 'unop' and n.get('op') in ('++', '--') and (U.scn(fn, n['sub']) or {}).get('d') == cx['d'])]
+                    if init is not None and fn.is_this_member(init, hpos) and all(w.get('k') == 'unop' and w['op'] == '++' for w in writes):
+                        cur = ('local', cx['d'])
+                ok = cur is not None and fn.is_this_member(lhs['recv'], hidx) and (U.scn(fn, a['rhs']) or {}).get('d') == new_p['d']
+                if ok:
+                    # reached only when index[cursor] == old_offset
+                    good = False
+                    for (c, s, b, o) in U.guards(fn, a['id']):
+                        p = U.cmp_parts(fn, c)
+                        if p is None or p[0] not in ('==', '!='):
+                            continue
+                        op = p[0] if s else U.NEG[p[0]]
+                        for x, y in ((p[1], p[2]), (p[2], p[1])):
+                            xn, yn = U.scn(fn, x), U.scn(fn, y)
+                            if xn is not None and xn.get('k') == 'call' and xn.get('op') == '[]' and fn.is_this_member(xn['recv'], hidx) \
+                                    and is_cursor(xn['args'][0], cur) and yn is not None and yn.get('d') == old_p['d'] and op == '==':
+                                good = True
+                    ok = good
+                if ok:
+                    # after the store the position member is one past the rewritten slot, on every path
+                    adv = []
+                    for n in fn.all_nodes():
+                        if cur == ('member',) and n.get('k') == 'unop' and n.get('op') == '++' and fn.is_this_member(n['sub'], hpos) and fn.elem_dominates(a['id'], n['id']):
+                            adv.append(n['id'])
+                        if n.get('k') == 'assign' and n.get('op') == '=' and fn.is_this_member(n['lhs'], hpos) and fn.elem_dominates(a['id'], n['id']):
+                            r_ = U.scn(fn, n['rhs'])
+                            if r_ is not None and r_.get('k') == 'binop' and r_.get('op') == '+' and fn.const_value(r_['rhs']) == 1 and is_cursor(r_['lhs'], cur):
+                                adv.append(n['id'])
+                            elif cur[0] == 'local' and r_ is not None and r_.get('k') == 'var' and r_.get('d') == cur[1]:
+                                # m_pos = pos; after a ++pos that follows the store
+                                if any(m_.get('k') == 'unop' and m_.get('op') == '++' and (U.scn(fn, m_['sub']) or {}).get('d') == cur[1]
+                                       and fn.elem_dominates(a['id'], m_['id']) and fn.elem_dominates(m_['id'], n['id']) for m_ in fn.all_nodes()):
+                                    adv.append(n['id'])
+                    ok = bool(adv) and U.must_pass_after(fn, a['id'], adv) is None
             R.check(ok, r2, key + '#rewrites-the-matching-slot', fn.site,
                     'moving_in_buffer must advance to the slot whose value equals old_offset, store new_offset there and step past it')
     for fn in [f for f in fb.fns('osmium::memory::Buffer::purge_removed') if f.params]:
